@@ -103,9 +103,9 @@ class BlockModel(GridObject):
     @property
     def cell_delimiters(self):
         return [
-            self._u_cell_delimiters,
-            self._v_cell_delimiters,
-            self._z_cell_delimiters,
+            self.u_cell_delimiters,
+            self.v_cell_delimiters,
+            self.z_cell_delimiters,
         ]
 
     @classmethod
